@@ -90,6 +90,13 @@ def check_C14(ctx, deep=False):
                 j -= 1
             ctx.fail("side-flip-of-an-in-memory-board", ops=[x["op"] for x in wres[j:i + 1] if x["op"] != "evalflip"] + ["evalflip"],
                      position=a, other_side=b)
+    # the evaluation AS THE SEARCH CONSUMES IT (stand-pat value of the capture search, also on the null-move
+    # twins the search builds itself from iteration 4 on): the search of the real code against the model's
+    # search, which evaluates with the modelled pure function at every leaf — a value that depends on anything
+    # else (what was evaluated before, how the board was produced) shows as a different node count or score
+    sres = C.run_ops(search_positions(ctx, 8 if ctx.quick else 120, 30, "searchd 4", with_rep=False))
+    t2_search(ctx, sres)
+    ctx.count("searches_with_null_move_twins", sum(1 for r in sres if r["op"].startswith("searchd")))
 
 
 # =====================================================================================
@@ -1122,6 +1129,7 @@ def check_C18(ctx, deep=False):
     if not ctx.bs.engine_error:
         live_info_sessions(ctx, k, 6 if q else 60)
         back_to_back_info_sessions(ctx, k, 6 if q else 40)
+        handover_sessions(ctx, 2 if q else 20, "C18")
 
 
 def live_info_sessions(ctx, k, n):
@@ -1221,6 +1229,67 @@ def check_C12(ctx, deep=False):
         tbl, succ = root_info(posr, genr)
         for sr in srs:
             judge_depths(ctx, posr, sr, k, len(succ))
+    if not ctx.bs.engine_error:
+        live_minimax_sessions(ctx, 40 if q else 300)
+
+
+def live_minimax_sessions(ctx, n):
+    """the score the engine REPORTS (info lines of the real binary) for depths 1..3, in a process that has been
+    sent the game GUI-style (one growing `position ... moves ...` per ply, searches in between): the last line of
+    every completed depth <= 3 must carry the oracle's minimax value for the final position with ITS history"""
+    games = [o for o in C.genops("rep", ctx.seed + 31, n, 14, 3) if o.startswith("pos ") and " moves " in o]
+    ops = []
+    for g in games:
+        ops += [g, "searchd 3"]
+    res = C.run_ops(ops)
+    want = {}
+    for i in range(0, len(res), 2):
+        if res[i + 1]["S"] not in ("-", ""):
+            want[res[i]["op"]] = res[i + 1]["S"]
+
+    def one(g):
+        cmd = g[4:]
+        head, moves = cmd.split(" moves ")
+        moves = moves.split(" ")
+        e = S.Engine()
+        try:
+            if not S.handshake(e):
+                return g, None
+            e.send("ucinewgame")
+            for j in range(max(1, len(moves) - 6), len(moves), 2):
+                e.send(head + " moves " + " ".join(moves[:j]))
+                r = S.go_and_wait(e, "go wtime 200 btime 200", 8)
+                if not r["answered"]:
+                    return g, None
+            e.send(cmd)
+            return g, S.go_and_wait(e, "go wtime 6100 btime 6100", 12)
+        finally:
+            e.kill()
+    for g, r in S.run_parallel(one, [g for g in games if g in want], workers=4):
+        ctx.count("live_minimax_sessions")
+        if r is None or not r["answered"]:
+            ctx.fail("live-session-unanswered", pos=g)
+            continue
+        last = {}
+        maxd = 0
+        for l in r["infos"]:
+            m = INFO_RE.match(re.sub(r" time \d+$", "", l))
+            if m:
+                d = int(m.group(2))
+                last[d] = (m.group(4) + " " + m.group(5), l)
+                maxd = max(maxd, d)
+        ctx.case((g, "live"), maxd > 3)
+        for item in want[g].split(";"):
+            m = re.match(r"D=(\d+):(-?\d+):([a-z]+ -?\d+):(.*)", item)
+            if not m:
+                continue
+            D, text = int(m.group(1)), m.group(3)
+            if D >= maxd or D not in last:       # depth D not known to be complete in this run
+                continue
+            if last[D][0] != text:
+                ctx.fail("reported-score-is-not-minimax", where=[g, "GUI-style session, final go"], depth=D, reported=last[D][1], minimax=text)
+            else:
+                ctx.sample({"pos": g[:100], "depth": D, "score": text, "live": True})
 
 
 def judge_depths(ctx, posr, sr, k, nsucc):
@@ -1614,6 +1683,7 @@ def check_C03(ctx, deep=False):
                 elif legal is not None:
                     ctx.sample({"pos": pl[:100], "gos": gos, "answer": mv})
     stale_thread_sessions(ctx)
+    handover_sessions(ctx, 3 if q else 30, "C03")
     # the text printed for every board the engine can hand back after its own previous answer:
     # exhaustive special two-ply chains (promotion then castling etc.), bestmove text = the move
     from props import oracle_fmt
@@ -1635,6 +1705,130 @@ def check_C03(ctx, deep=False):
         for sr in srs:
             if sr["I"] != "panic":
                 check_sweep_group(ctx, posr, genr, sr, k)
+
+
+HANDOVER_CONFIGS = [
+    # (WALLEYE_VERIF_SCHED, clock ms) — slice = 0.8*(clock-100)/30 ms; hook H6 makes the thread reaching the
+    # named point sleep: `accept` = improvement accepted by the clock check, not yet handed over;
+    # `answer` = polling loop left, go not yet answered; `start` = search thread entered
+    ("accept=60", 700),             # slice 16: the answer overtakes every improvement (defect D13: its info line came after)
+    ("accept=12,answer=45", 700),   # an improvement gets through after the deadline but before the answer: it must be the answer
+    ("accept=5", 1600),             # slice 40: several improvements get through, the last one may be overtaken
+    ("start=30", 700),              # the search thread starts after the deadline
+    ("answer=30", 700),             # the I/O thread is late
+    ("accept=25,answer=10", 1000),  # slice 24
+]
+
+
+def handover_sessions(ctx, n, prop):
+    """the hand-over of moves and info lines between the two threads of a go under FORCED schedules
+    (hook H6), judged by the characterisation proved for every schedule of the model
+    (`go_stdout_comes_from_the_search`): the lines of a go are info* bestmove and nothing after it; the
+    info lines are the first k improvements of an undisturbed long run; the bestmove is the first PV
+    move of the last info line shown, the fall-back move when none was shown; a second go right after
+    sees only its own lines"""
+    if ctx.bs.trace_engine_error:
+        ctx.notes.append("hook-enabled engine unavailable: hand-over sessions skipped")
+        return
+    poslines = [o[4:] for o in C.genops("search", ctx.seed + 21, n, 30) if o.startswith("pos ")]
+    poslines = ["position startpos"] + poslines
+
+    def strip(l):
+        return re.sub(r" time \d+$", "", l)
+
+    def pv0(info):
+        t = info.split(" ")
+        return t[2] if len(t) > 2 and t[1] == "pv" else None
+
+    def one(pl):
+        out = {"pos": pl, "ref": None, "fb": None, "runs": []}
+        e = S.Engine(binary=C.ENGINE_TRACE)
+        try:
+            if not S.handshake(e):
+                return out
+            e.send(pl)
+            r = S.go_and_wait(e, "go wtime 6100 btime 6100", 12)
+            if not r["answered"]:
+                return out
+            out["ref"] = [strip(l) for l in r["infos"]]
+            e.send(pl)
+            r0 = S.go_and_wait(e, "go", 8)
+            if not r0["answered"]:
+                return out
+            out["fb"] = r0["best"]
+        finally:
+            e.kill()
+        for cfg, clock in HANDOVER_CONFIGS:
+            e = S.Engine(binary=C.ENGINE_TRACE, env={"WALLEYE_VERIF_SCHED": cfg})
+            try:
+                if not S.handshake(e):
+                    out["runs"].append((cfg, clock, None))
+                    continue
+                rec = []
+                for rep in range(2):
+                    e.send(pl)
+                    e.send("go wtime %d btime %d" % (clock, clock))
+                    lines, ok = e.read_until(lambda l: l.startswith("bestmove"), 10)
+                    late = [l for _, l in e.drain(0.13)] if ok else []
+                    rec.append({"answered": ok, "lines": [l for _, l in lines], "late": late})
+                    if not ok:
+                        break
+                e.send("isready")
+                _, ready = e.read_until(lambda l: l == "readyok", 5.0)
+                out["runs"].append((cfg, clock, rec, ready))
+            finally:
+                e.kill()
+        return out
+    for o in S.run_parallel(one, poslines, workers=4):
+        pl = o["pos"]
+        if o["ref"] is None or o["fb"] is None:
+            ctx.fail("handover-reference-run-unanswered", pos=pl)
+            continue
+        for run in o["runs"]:
+            cfg, clock = run[0], run[1]
+            ctx.count("handover_sessions")
+            if run[2] is None:
+                ctx.fail("no-handshake", pos=pl, sched=cfg)
+                continue
+            rec, ready = run[2], run[3]
+            ctx.case(("handover", pl, cfg), True)
+            if not ready:
+                ctx.fail("not-ready-after-go", pos=pl, sched=cfg)
+            for idx, g in enumerate(rec):
+                where = {"pos": pl, "sched": cfg, "go": "go wtime %d btime %d" % (clock, clock), "which_go": idx + 1}
+                if not g["answered"]:
+                    ctx.fail("go-not-answered", **where)
+                    break
+                if g["late"]:
+                    # a second bestmove breaks C03; an info line of an answered search breaks C18 (it is read as a
+                    # line of the NEXT search: depth order, PV legality) and C16; elsewhere: broken correspondence
+                    if any(l.startswith("bestmove") for l in g["late"]) or prop in ("C18", "C16"):
+                        ctx.fail("output-after-bestmove", lines=g["late"][:4], **where)
+                    else:
+                        ctx.t2diff({"op": "handover session: %s | WALLEYE_VERIF_SCHED=%s | %s (go #%d): output after the bestmove"
+                                          % (pl, cfg, where["go"], idx + 1), "M": "", "I": " / ".join(g["late"][:4])})
+                body, best = g["lines"][:-1], g["lines"][-1]
+                if any(not l.startswith("info ") for l in body):
+                    ctx.fail("foreign-line-inside-a-go", lines=[l for l in body if not l.startswith("info ")][:4], **where)
+                    continue
+                infos = [strip(l) for l in body]
+                m = min(len(infos), len(o["ref"]))
+                if infos[:m] != o["ref"][:m]:
+                    if prop == "C16":
+                        ctx.fail("info-lines-are-not-the-first-improvements-of-the-search", shown=infos[:m][-3:], reference=o["ref"][:m][-3:], **where)
+                    else:
+                        ctx.t2diff({"op": "handover session: %s | WALLEYE_VERIF_SCHED=%s | %s (go #%d): info lines vs undisturbed run"
+                                          % (pl, cfg, where["go"], idx + 1), "M": " / ".join(o["ref"][:m][-3:]), "I": " / ".join(infos[:m][-3:])})
+                    continue
+                expect = ("bestmove " + pv0(infos[-1])) if infos else o["fb"]
+                if best != expect:
+                    # not demanded by the property itself: a disagreement with the hand-over MODEL
+                    # (Model/Handover: the answer takes what is left in the channel) = broken correspondence
+                    ctx.t2diff({"op": "handover session: %s | WALLEYE_VERIF_SCHED=%s | %s (go #%d): bestmove vs last improvement shown (%s)"
+                                      % (pl, cfg, where["go"], idx + 1, infos[-1] if infos else "none: fall-back move"),
+                                "M": expect, "I": best})
+                else:
+                    ctx.sample({"pos": pl[:80], "sched": cfg, "infos_shown": len(infos), "answer": best})
 
 
 def stale_thread_sessions(ctx):
@@ -2080,6 +2274,7 @@ def check_C16(ctx, deep=False):
                              a=x[:m][-2:], b=y[:m][-2:])
     continuation_sessions(ctx, 10 if q else 24)
     outliving_thread_sessions(ctx)
+    handover_sessions(ctx, 2 if q else 20, "C16")
     run_traced(ctx, ["cont", "rep", "gogo", "garbage"], 8 if q else 60)
     # static audit of process-global state (T3)
     hits = []
